@@ -132,10 +132,12 @@ func Load(opt LoadOptions) (*Prog, error) {
 	p.Fset = p.Pkgs[0].Fset
 	if !opt.NoNormalize {
 		known := opt.KnownFuncs
+		var ref *refTable
 		if known == nil {
 			known = ReferenceFuncs()
+			ref = referenceTable()
 		}
-		nov, inl, skipped, nerr := normalize(p.Pkgs, p.Fset, known)
+		nov, inl, skipped, nerr := normalize(p.Pkgs, p.Fset, known, ref)
 		if nerr != nil || len(nov) > 0 {
 			// the syntax trees of this load were edited in place: load again, with or without the expansion
 			o2 := opt
